@@ -1,6 +1,7 @@
 """C06: the change stream reproduces the RIB.  Same model and harness as C02;
 the oracle folds the implementation's NlriChange stream with three consumers."""
 from gen import ribcommon as R
+from gen import ribenum as E
 from gen.c02 import Prop as C02
 
 class Prop(C02):
@@ -22,11 +23,14 @@ class Prop(C02):
     assumptions = ['a Source object (allocation token) always denotes the same remote address (consistent histories)']
     rule = ('histories over 3 prefixes, 3 peers (each with a restarted session), path ids 0-2, with insert/replace/remove/drop/stale mark and purge/'
             'LLGR mark and purges/NO_LLGR purge/next-hop flips/start-end deferral; non-trivial = at least one change with best_changed=false or '
-            'any_changed=false was emitted; distinct = distinct sequence of (prefix, flags, path list) changes')
+            'any_changed=false was emitted; distinct = distinct sequence of (prefix, flags, path list) changes'
+            ' Enumerated on every run (gen/ribenum.py, tags enum:*): every operation of a 90-operation alphabet on each of 21 pre-states; two-candidate duels deciding at exactly one step of the decision order with the loser better at every later step, single-step ECMP exclusions, complete ties, EVPN MAC-mobility forms in every extended-community layout, LLGR_STALE / NO_LLGR in every community position; AS_PATH hop counts on both sides of 0/1/63/64/65/127/128/255/256/510 in every segment shape including unknown segment types and hundreds of one-AS segments; 67 (thorough: 131) prefixes crossing the id bitmap words with ids freed and re-used; prefix limits 0/1/2/u32::MAX; u32 ends of path ids, LOCAL_PREF, router ids, CLUSTER_LIST lengths; all role pairs.')
+
+    enum_which = 'c06'
 
     def gen_cases(self, rng, tier):
         n = 700 if tier == 'quick' else 7000
-        cases = []
+        cases = E.all_enumerated('c06', tier) + (E.state_x_op(pairs=True) if tier != 'quick' else [])
         for k in range(n):
             if k % 6 == 3:
                 # deferral-heavy histories: a start-up deferral during which paths come, go, lose their next hop
@@ -84,6 +88,12 @@ class Prop(C02):
                     if nxt: delta[net] = nxt
                     else: delta.pop(net, None)
             loc = {x[0]: x for x in st[0]}
+            if len(st) > 7:
+                for m, lv in ((1, st[7][0]), (2, st[7][1])):
+                    got = {x[0]: [tuple_(q) for q in map(tuple, x[1])] for x in lv}
+                    want = {n: [tuple_(q) for q in map(tuple, x[5])][:m] for n, x in loc.items()}
+                    if {n: [repr(q) for q in v] for n, v in got.items()} != {n: [repr(q) for q in v] for n, v in want.items()}:
+                        return 'step %d: collect_loc_rib_paths_limited(%d) is not the %d-path window of the Loc-RIB' % (k, m, m)
             # destination ids unique among live prefixes
             dids = [x[1] for x in st[0]]
             if len(set(dids)) != len(dids):
